@@ -63,7 +63,7 @@ Proof. exact embed_slice_adj. Qed.
 Print Assumptions C01_embed_slice_adj.
 
 (* --- Laplacian (2-D): the composition as coded (kind and edge forwarded to every axis) computes the
-   documented Laplacian, for every kind / edge / weights / samplings and every admissible n0 x n1 array --- *)
+   documented Laplacian, for every kind / edge / weights / samplings and every large-enough n0 x n1 array --- *)
 Theorem C07a_laplacian_meets_doc : forall (F : FieldS) k e w0 w1 s0 s1 n0 n1 (X : list (list F)),
   length X = n0 -> Forall (fun r => length r = n1) X -> sd_minsize k e <= n0 -> sd_minsize k e <= n1 ->
   lap2_coded F k e w0 w1 s0 s1 n0 n1 X = lap2_doc F k e w0 w1 s0 s1 n0 n1 X.
